@@ -14,3 +14,9 @@ import (
 func (t *Miner) VerifPackBlock(ctx xctx.XContext, height int64, now time.Time, consData []byte) (*lpb.InternalBlock, error) {
 	return t.packBlock(ctx, height, now, consData)
 }
+
+// VerifMining runs one round of the package-private mining (state walk, ProcessBeforeMiner, truncateForMiner,
+// packBlock, confirmBlockForMiner, broadcast) for the verification harness (build tag verif).
+func (t *Miner) VerifMining(ctx xctx.XContext) error {
+	return t.mining(ctx)
+}
